@@ -5,6 +5,8 @@ import (
 	"errors"
 	"sync"
 	"sync/atomic"
+
+	"github.com/glebziz/fs_db/internal/verifhook"
 )
 
 type readWriter struct {
@@ -32,6 +34,7 @@ func (rw *readWriter) Read(p []byte) (n int, err error) {
 	defer rw.m.Unlock()
 
 	if !rw.closed.Load() && rw.buf.Len() == 0 {
+		verifhook.Point("rd.beforeWait")
 		rw.cv.Wait()
 	}
 
@@ -54,6 +57,7 @@ func (rw *readWriter) Write(p []byte) (n int, err error) {
 }
 
 func (rw *readWriter) Close() error {
+	verifhook.Point("cl.start")
 	rw.closed.Store(true)
 	rw.cv.Broadcast()
 	rw.Wait()
